@@ -453,6 +453,7 @@ static bool dead_stack_address(const void* p) {
   void* beg = 0; void* end = 0;
   void* fs = __asan_get_current_fake_stack();
   if (fs && __asan_addr_is_in_fake_stack(fs, const_cast<void*>(p), &beg, &end)) return true;
+  if (__asan_address_is_poisoned(p)) return true;     // a fake-stack frame that has returned (or freed memory)
 #endif
   pthread_attr_t at; void* lo = 0; size_t sz = 0;
   if (pthread_getattr_np(pthread_self(), &at) != 0) return false;
@@ -573,6 +574,7 @@ static StepOut step(Case& c, const Fn* f, const Mut& mut, Mode mode, long arm_k,
       // return value: Boolean answers as positive / zero, everything else equal
       bool same = (t.ret == 0 || t.ret == 1) ? ((cr.r > 0) == (t.ret > 0)) : (cr.r == t.ret);
       if (!same) { viol(c, "C20.equiv." + sch + ".return_value", what + ": C returned " + itos(cr.r) + ", C++ twin " + itos(t.ret)); ok = false; }
+      if (ok && f->post) { const char* msg = f->post(t); hx::checked(1); if (msg) { viol(c, "C20.equiv." + sch + ".postcondition", what + ": " + msg); ok = false; } }
       for (int k = 0; ok && k < f->nargs; ++k) {
         const ArgSpec& s = f->args[k];
         const TypeOps* ops = s.type >= 0 ? type_table[s.type].ops : 0;
@@ -633,7 +635,6 @@ static StepOut step(Case& c, const Fn* f, const Mut& mut, Mode mode, long arm_k,
         }
       }
       if (ok && (F & F_IO_STDOUT) && t.has_sout && captured != t.sout) { viol(c, "C20.equiv." + sch + ".text", what + ": printed {" + captured.substr(0, 300) + "} twin {" + t.sout.substr(0, 300) + "}"); ok = false; }
-      if (ok && f->post) { const char* msg = f->post(t); hx::checked(1); if (msg) { viol(c, "C20.equiv." + sch + ".postcondition", what + ": " + msg); ok = false; } }
     }
   }
   // ---- linear_partition: the returned handles must be objects the caller owns ----
